@@ -200,6 +200,9 @@ func exec(op string) string {
 		return "bad-op"
 	}
 	switch {
+	case w[0] == "cfg" && len(w) == 4:
+		setCfg(w[1] == "1", w[2] == "1", w[3] == "1")
+		return "cfg"
 	case w[0] == "parse" && len(w) == 3:
 		b, err := hx.UnHex(w[1])
 		d, err2 := strconv.ParseInt(w[2], 10, 64)
@@ -221,6 +224,7 @@ func exec(op string) string {
 		}
 		v, e := utility.VerifC18StrToBigInt(string(b), d)
 		res := showInt(v, e)
+		retain(op, v)
 		if d == 18 { // the exported entry point must agree with the hook
 			v2, e2 := utility.StrToBigInt(string(b))
 			if r2 := showInt(v2, e2); r2 != res {
@@ -244,33 +248,37 @@ func exec(op string) string {
 		if !ok || err != nil {
 			return "bad-op"
 		}
-		return "s " + utility.VerifC18BigIntToStr(n, p)
+		return unchanged(n, w[1], "s "+utility.VerifC18BigIntToStr(n, p))
 	case w[0] == "tostr" && len(w) == 2:
 		n, ok := parseBig(w[1])
 		if !ok {
 			return "bad-op"
 		}
-		return "s " + utility.BigIntToStr(n)
+		return unchanged(n, w[1], "s "+utility.BigIntToStr(n))
 	case w[0] == "nodot" && len(w) == 2:
 		n, ok := parseBig(w[1])
 		if !ok {
 			return "bad-op"
 		}
-		return "s " + utility.BigIntToStrWithoutDot(n)
+		return unchanged(n, w[1], "s "+utility.BigIntToStrWithoutDot(n))
 	case w[0] == "erc20" && len(w) == 3:
 		n, ok := parseBig(w[1])
 		d, err := strconv.ParseInt(w[2], 10, 64)
 		if !ok || err != nil {
 			return "bad-op"
 		}
-		return showInt(utility.FormatDecimalForERC20(n, d), nil)
+		v := utility.FormatDecimalForERC20(n, d)
+		retain(op, v)
+		return unchanged(n, w[1], showInt(v, nil))
 	case w[0] == "rocket" && len(w) == 3:
 		n, ok := parseBig(w[1])
 		d, err := strconv.ParseInt(w[2], 10, 64)
 		if !ok || err != nil {
 			return "bad-op"
 		}
-		return showInt(utility.FormatDecimalForRocket(n, d), nil)
+		v := utility.FormatDecimalForRocket(n, d)
+		retain(op, v)
+		return unchanged(n, w[1], showInt(v, nil))
 	case w[0] == "ft" && len(w) >= 2:
 		d, err := strconv.ParseUint(w[1], 10, 64)
 		if err != nil {
@@ -292,7 +300,9 @@ func exec(op string) string {
 		if err != nil {
 			return "bad-op"
 		}
-		return showInt(utility.Float64ToBigInt(float64(n)), nil)
+		v := utility.Float64ToBigInt(float64(n))
+		retain(op, v)
+		return showInt(v, nil)
 	case w[0] == "f64" && len(w) == 2:
 		b, err := strconv.ParseUint(w[1], 10, 64)
 		if err != nil {
@@ -312,7 +322,9 @@ func exec(op string) string {
 		if err != nil {
 			return "bad-op"
 		}
-		return showInt(utility.Uint64ToBigInt(n), nil)
+		v := utility.Uint64ToBigInt(n)
+		retain(op, v)
+		return showInt(v, nil)
 	case w[0] == "stakearg" && len(w) == 2:
 		n, ok := parseBig(w[1])
 		if !ok {
@@ -338,7 +350,8 @@ func exec(op string) string {
 		if !ok || n.Sign() < 0 {
 			return "bad-op"
 		}
-		return "s " + common.GenerateCallDataBigInt(n)
+		cd := common.GenerateCallDataBigInt(n)
+		return "s " + cd + " arg-after=" + n.String() // BigIntBase10toN consumes its argument: the caller's big.Int is left at 0
 	case w[0] == "size" && len(w) == 3:
 		b, err := hx.UnHex(w[1])
 		d, err2 := strconv.ParseInt(w[2], 10, 64)
@@ -829,11 +842,21 @@ func search(r *hx.Rng, n int, dist map[string]int) (evals int, distinct int, vs 
 	add := func(key, op, detail string) {
 		if len(vs) < 200 {
 			vs = append(vs, viol{key, op, detail})
+			fmt.Println("VIOL " + key + " " + op + " :: " + detail) // printed when found, not at the end of the run
 		}
 	}
 	inDomain := func(v *big.Int) bool { return new(big.Int).Abs(v).Cmp(lim) < 0 }
+	evals += smallScope(add) // deterministic families before anything random
+	seen["small-scope"] = true
+	defer func() {
+		evals += historyPhase(r.Fork(), 600+n/40, add)
+		evals += concurrencyPhase(r.Fork(), 400+n/60, 8, add)
+	}()
 	for i := 0; i < n; i++ {
 		evals++
+		if i%16 == 0 {
+			setCfg(true, true, true) // back to the dev schedule (the ft case switches flags)
+		}
 		switch r.Intn(9) {
 		case 8: // stake / refund helpers: exact below 2^53 whole coins, and agreeing with each other
 			n := genU64(r, dist)
@@ -868,10 +891,7 @@ func search(r *hx.Rng, n int, dist map[string]int) (evals int, distinct int, vs 
 			var want string
 			if amt.Cmp(bal) <= 0 {
 				left := new(big.Int).Sub(bal, amt)
-				want = "xfer ok " + left.String() + " " + amt.String() + " {\"balance\":\"" + utility.BigIntToStr(left) + "\"}"
-				if back, err := utility.StrToBigInt(utility.BigIntToStr(left)); err != nil || back.Cmp(left) != 0 {
-					add("game-transfer", op, "response balance does not read back: "+utility.BigIntToStr(left))
-				}
+				want = "xfer ok " + left.String() + " " + amt.String() + " {\"balance\":\"" + refBigIntToStr(left) + "\"}"
 			} else {
 				want = "xfer fail " + bal.String() + " 0 Transfer_Balance_Failed"
 			}
@@ -883,6 +903,8 @@ func search(r *hx.Rng, n int, dist map[string]int) (evals int, distinct int, vs 
 			if !inDomain(v) {
 				continue
 			}
+			// on both sides of the fork flags the balance paths read (Proposal 002: setData vs SetData)
+			setCfg(r.Bool(), r.Bool(), r.Bool())
 			op := "ft 18 s" + v.String() + " g a" + v.String() + " g u" + v.String() + " g"
 			seen[op] = true
 			twice := new(big.Int).Add(v, v).String()
@@ -908,9 +930,15 @@ func search(r *hx.Rng, n int, dist map[string]int) (evals int, distinct int, vs 
 			op := "roundtrip " + v.String()
 			seen[op] = true
 			s := utility.BigIntToStr(v)
+			if s != refBigIntToStr(v) { // independent reference, not the code under test
+				add("format-reference", "tostr "+v.String(), "BigIntToStr = "+s+" want "+refBigIntToStr(v))
+			}
 			got, err := utility.StrToBigInt(s)
 			if err != nil || got == nil || got.Cmp(v) != 0 {
 				add("roundtrip-18", op, "StrToBigInt(BigIntToStr(n)) = "+showInt(got, err)+" via "+s)
+			}
+			if got, err := utility.StrToBigInt(refBigIntToStr(v)); err != nil || got == nil || got.Cmp(v) != 0 {
+				add("roundtrip-18", op, "StrToBigInt(reference string) = "+showInt(got, err)+" via "+refBigIntToStr(v))
 			}
 			s2 := utility.VerifC18BigIntToStr(v, 18)
 			got2, err2 := utility.StrToBigInt(s2)
@@ -1083,11 +1111,18 @@ func main() {
 	case "exec":
 		fmt.Println("ANSWER " + hx.Guard(func() string { return exec(a["op"]) }))
 		return
+	case "conc": // concurrency phase only (the -race build of the thorough tier runs this)
+		nv := 0
+		ev := concurrencyPhase(r, n, 12, func(key, op, detail string) {
+			nv++
+			if nv <= 50 {
+				fmt.Println("VIOL " + key + " " + op + " :: " + detail)
+			}
+		})
+		fmt.Printf("STATS {\"evaluations\":%d,\"distinct\":%d,\"violations\":%d,\"dist\":{}}\n", ev, n, nv)
+		return
 	case "search":
 		ev, distinct, vs, samples := search(r, n, dist)
-		for _, v := range vs {
-			fmt.Println("VIOL " + v.key + " " + v.op + " :: " + v.detail)
-		}
 		for _, s := range samples {
 			fmt.Println("SAMPLE " + s)
 		}
@@ -1104,9 +1139,10 @@ func main() {
 	}
 	defer out.Close()
 	nc := 0
-	for _, op := range corpusOps() {
+	corpus := corpusOps()
+	for _, op := range corpus {
 		op := op
-		out.Do(op, func() string { return exec(op) })
+		out.Do(op, func() string { return execTracked(op) })
 		nc++
 	}
 	// small-scope exhaustive part: every integer 0..1100 and its negation through all integer ops at all d in 0..18 (sampled d for speed)
@@ -1119,12 +1155,28 @@ func main() {
 			"rocket " + strconv.FormatInt(v, 10) + " " + strconv.FormatInt(d, 10),
 		} {
 			op := op
-			out.Do(op, func() string { return exec(op) })
+			out.Do(op, func() string { return execTracked(op) })
 		}
 	}
+	cfgR := r.Fork()
 	for i := 0; i < n; i++ {
+		if i%300 == 150 { // switch the fork flags the conversion paths read (Proposal 002 / 005 / 017)
+			op := "cfg " + strconv.Itoa(cfgR.Intn(2)) + " " + strconv.Itoa(cfgR.Intn(2)) + " " + strconv.Itoa(cfgR.Intn(2))
+			out.Do(op, func() string { return exec(op) })
+		}
 		op := genOp(r, dist)
-		out.Do(op, func() string { return exec(op) })
+		out.Do(op, func() string { return execTracked(op) })
+	}
+	// process-local history: the corpus once more, in a process that has by now executed every kind of
+	// conversion at every decimal count under several fork configurations; the model is history-free, so any
+	// dependence on earlier work shows as a mismatch. First under all-off flags, then back on the dev schedule.
+	for _, c := range []string{"cfg 0 0 0", "cfg 1 1 1"} {
+		c := c
+		out.Do(c, func() string { return exec(c) })
+		for _, op := range corpus {
+			op := op
+			out.Do(op, func() string { return execTracked(op) })
+		}
 	}
 	fmt.Printf("STATS {\"ops\":%d,\"corpus_ops\":%d,\"kinds\":%s,\"results\":%s,\"dist\":%s}\n",
 		out.N, nc, jsonMap(out.Kinds), jsonMap(out.Results), jsonMap(dist))
